@@ -324,39 +324,75 @@ def check_helpers(ctx, tu):
                 bad.append('%s at %s' % (short(cal['key']), f.nloc(n)))
         ctx.ob('C01.H', f, 'the eventutil helper reaches the list only through forEachIf / remove', not bad, detail=', '.join(bad), key_detail='helper callees')
         if f.kind == 'lambda' and f.parent_fn() is not None and f.parent_fn().name in ('removeListener', 'hasListener', 'hasAnyListener'):
-            par = f.parent_fn()
+            check_util_visitor(ctx, tu, f)
+
+
+def check_util_visitor(ctx, tu, f):
+    """The visitor lambdas of the eventutil helpers, stated as what the helper's result needs (not as a frozen shape):
+      hasAnyListener   found := true on every visit (whether the visitor then stops is only a matter of speed)
+      hasListener      found := true only where `item == listener` held; the visitor keeps going while there was no match
+      removeListener   as hasListener, plus: on a match the visited handle is removed and the enumeration stops (the helper is documented to
+                       remove the first match only); found may be `true` or the result of that removal (a visited handle is in the list)"""
+    from ..effects import writes as _writes
+    par = f.parent_fn()
+    try:
+        fm = F.formula(f, inline=False)
+    except F.Unsupported:
+        fm = None
+    ats = F.atoms(fm) if fm else []
+    match = [a for a in ats if '==' in a]
+    # blocks whose condition is the match test
+    match_blocks = []
+    for bid, blk in f.blocks.items():
+        c = blk.get('cond')
+        if c and len(blk['succ']) == 2:
             try:
-                fm = F.formula(f, inline=False)
+                cf = F.boolexpr(f, c, {}, False)
             except F.Unsupported:
-                fm = None
-            ats = F.atoms(fm) if fm else []
-            if par.name == 'hasAnyListener':
-                ok = fm is not None and F.equivalent(fm, ('const', False))[0]
-                what = 'the visitor stops at the first callback (any callback means "has a listener")'
-            else:
-                ok = fm is not None and len(ats) == 1 and '==' in ats[0] and F.equivalent(fm, ('not', ('atom', ats[0])))[0]
-                what = 'the visitor continues exactly while the visited callback differs from the one searched for'
-            ctx.ob('C01.H', f, what, ok, detail=F.show(fm) if fm else 'formula not extractable', key_detail='helper visitor result')
-            # `found` is set exactly on the matching edge; removeListener removes the visited handle there
-            from ..effects import writes as _writes
-            ws = [w for w in _writes(f) if w['how'] == 'assign' and 'found' in pstr(w['path'])]
-            okf = len(ws) == 1 and f.nodes[f.strip_all_casts(ws[0]['rhs'])].get('value') is True
-            if okf and par.name != 'hasAnyListener':
-                okf = False
-                for bid, blk in f.blocks.items():
-                    c = blk.get('cond')
-                    if c and len(blk['succ']) == 2:
-                        try:
-                            cf = F.boolexpr(f, c, {}, False)
-                        except F.Unsupported:
-                            continue
-                        if cf[0] == 'atom' and '==' in cf[1] and L.edge_dominates(f, bid, 'true', ws[0]['pos']):
-                            okf = True
-            ctx.ob('C01.H', f, '`found` is set exactly when the searched callback was met', okf, key_detail='helper found flag')
-            if par.name == 'removeListener':
-                rm = [n for n in f.calls() if (f.callee(n) or {}).get('name') in ('remove', 'removeListener')]
-                okr = len(rm) == 1 and ws and f.pos_dominates(ws[0]['pos'], f.pos(rm[0])) or (len(rm) == 1 and ws and f.pos(rm[0])[0] == ws[0]['pos'][0])
-                if okr:
-                    hp = f.params[0]['id']
-                    okr = any(root_var_id(path(f, f.value_source(a))) == hp for a in f.call_args(rm[0]))
-                ctx.ob('C01.H', f, 'removeListener removes the visited handle of the matching callback', bool(okr), key_detail='helper removes handle')
+                continue
+            if cf[0] == 'atom' and '==' in cf[1]:
+                match_blocks.append(bid)
+
+    def on_match_edge(pos):
+        return any(L.edge_dominates(f, b, 'true', pos) for b in match_blocks)
+    rm = [n for n in f.calls() if (f.callee(n) or {}).get('name') in ('remove', 'removeListener')]
+    ws = [w for w in _writes(f) if w['how'] == 'assign' and 'found' in pstr(w['path'])]
+
+    def rhs_ok(w):
+        r = f.strip_all_casts(w['rhs'])
+        if f.nodes[r].get('value') is True:
+            return True
+        return par.name == 'removeListener' and len(rm) == 1 and f.value_source(r) == rm[0]
+    if par.name == 'hasAnyListener':
+        okf = len(ws) >= 1 and all(rhs_ok(w) for w in ws) and any(f.pos_postdominates(w['pos'], (f.entry, 0)) for w in ws)
+        ctx.ob('C01.H', f, 'every visit records that a listener exists', okf, key_detail='helper found flag')
+        return
+    okf = len(ws) >= 1 and all(rhs_ok(w) and on_match_edge(w['pos']) for w in ws)
+    ctx.ob('C01.H', f, '`found` is set only where the visited callback equals the one searched for (to true, or to the result of removing it)', okf,
+           key_detail='helper found flag')
+    # visitor result: atoms other than the match test (e.g. `found`) equal the match test at the return (found is written on the match edge only)
+    ok = fm is not None and len(match) == 1
+    if ok:
+        others = [a for a in ats if a != match[0]]
+        ok = all('found' in a for a in others)
+        if ok:
+            for mval in (False, True):
+                env = {match[0]: mval}
+                for a in others:
+                    env[a] = mval
+                val = F.evaluate(fm, env) if hasattr(F, 'evaluate') else None
+                if val is None:
+                    ok = False
+                    break
+                if not mval and val is not True:
+                    ok = False      # no match: the enumeration must go on
+                if mval and par.name == 'removeListener' and val is not False:
+                    ok = False      # first match removed: stop (only the first match is removed)
+    what = 'the visitor continues while there is no match' + (' and stops once the match was removed' if par.name == 'removeListener' else '')
+    ctx.ob('C01.H', f, what, ok, detail=F.show(fm) if fm else 'formula not extractable', key_detail='helper visitor result')
+    if par.name == 'removeListener':
+        okr = len(rm) == 1 and on_match_edge(f.pos(rm[0]))
+        if okr:
+            hp = f.params[0]['id']
+            okr = any(root_var_id(path(f, f.value_source(a))) == hp for a in f.call_args(rm[0]))
+        ctx.ob('C01.H', f, 'removeListener removes the visited handle, and only where the callback matched', bool(okr), key_detail='helper removes handle')
